@@ -375,7 +375,12 @@ def pool(contract, seed=0, limit=4000):
                Element(properties={"class_": Property(String(), source="class", required=True), "b": Property(Integer())}),
                Element(properties={"x": Property(String(), source="$x"), "y": Property(String(), source="y y", required=True)}, required=["k"]),
                Element(properties={"a": Property(String(), required=True)}, required=["a", "b"]), Element(required=["z"]), Element(required=[]),
-               Element(properties={"m": Property(Element(default=1), source="M", required=True), "n": Property(String(), required=True)}, default={"M": 1})]
+               Element(properties={"m": Property(Element(default=1), source="M", required=True), "n": Property(String(), required=True)}, default={"M": 1}),
+               Element(properties={"blank": Property(String(), source=""), "other": Property(String(), required=True)}),
+               Element(properties={"class_": Property(String(), source="class", required=True)}, required=["class_"]),
+               mk(items=E_.Nothing()), mk(items=[]), mk(patternProperties={}), mk(dependencies={}), mk(additionalItems=False), mk(additionalProperties=False),
+               mk(uniqueItems=True), mk(enum=[]), mk(const=None), mk(const=0), mk(minItems=0), mk(description=""), mk(contains=E_.Nothing()), mk(propertyNames=E_.Nothing()),
+               mk(additionalItems=E_.Nothing()), mk(additionalProperties=String())]
         yield from cap((fn, (e,)) for e in els if type(e) is K)
         return
     if key.endswith(":_compose_elements"):
